@@ -101,6 +101,7 @@ pub fn eval(b: &B) -> bool {
         B::Le(x, y) => x <= y,
         B::Eq(x, y) => x == y,
         B::Same(x, y) => x.to_bits() == y.to_bits() || (x.is_nan() && y.is_nan()),
+        B::Ident(x, y) => x.to_bits() == y.to_bits() || (x.is_nan() && y.is_nan()) || x == y,
         B::IsNan(x) => x.is_nan(),
         B::IsInf(x) => x.is_infinite(),
         B::Not(x) => !eval(x),
